@@ -60,6 +60,9 @@ def run(ctx):  # noqa: C901, PLR0912, PLR0915
     ctx.rule('C20.R4', 'every filter parameter of filter_localized_texts influences the result; newest version default')
     ctx.rule('C20.R6', 'client request / provider registration / response class agree')
 
+    from . import common
+    # what the handle resolution finds is what the MDIB contains: no state of a removed descriptor stays behind in the tables
+    common.index_lists_not_mutated_while_iterated(ctx, 'C20.R2')
     # ------------------------------------------------------------------ R1 + R2 + R3
     n_loops = 0
     for q in (GS, CS):
